@@ -28,6 +28,21 @@ CLAIMED = {
         "design_ref": "DESIGN.md §8 C07",
         "technique": "Lean 4 theorems over a hand model (R3 last-match, fnmatch literal lemmas) + T0 tables + T1 correspondence + rule-by-rule failing-input search",
     },
+    "C08": {
+        "text": "Proof (Lean 4): R1 flattened (verdict_eq_leaves: the verdict of any tree is the join of the decisions of its syntactic atoms, one mutual structural induction over the whole AST). "
+        "For the world after adding an allow rule (withAllow): the atoms of a tree are unchanged, redirect/injection/unknown atoms give identical decisions, a command none of whose word suffixes the rule matches keeps "
+        "verdict and reason, the matched command's proper atom becomes allow, and every atom's decision bounds the new verdict from below (redirect_survives, unmatched_command_survives, unmatched_tree_unchanged). "
+        "Tied to the code by end-to-end correspondence under extended rule sets; failing-input search by rule-locality oracles on analyze().",
+        "design_ref": "DESIGN.md §8 C08",
+        "technique": "Lean 4 theorems (R1 flattened over syntactic atoms, two-world comparison) + T1 correspondence in config mode + rule-locality failing-input search",
+    },
+    "C14": {
+        "text": "Proof (Lean 4): match_mcp is last-matching-glob over the *-mcp rules only; the shell rule lookups depend only on command rules, redirect rules and aliases (hence the whole analysis: World.withConfig equal); "
+        "at the level of config text, deleting/adding MCP lines leaves every shell-relevant field of the parsed configuration unchanged and vice versa (R4 projections of the line-fold parser). "
+        "Tied to config.py by differential runs (parse_config, match_mcp, match_after_mcp, fnmatch); failing-input search by paired config edits on analyze() and check_mcp_tool().",
+        "design_ref": "DESIGN.md §8 C14",
+        "technique": "Lean 4 theorems (R3 last-match, R4 parser projections) + T1 correspondence + paired-config failing-input search",
+    },
 }
 
 PENDING_REASON = "check not built yet in this round (DESIGN.md §10 build order); no technique other than Lean proof + correspondence is substituted"
